@@ -92,6 +92,10 @@ def check_rotation(case):
         lib("rotation-prior", gaddlemaps.rotation_matrix, axis, th)
         axis[:] = real
     axis_before = axis.copy()
+    if case.get("reuse_axis"):
+        first = lib("rotation-first", gaddlemaps.rotation_matrix, axis, th)
+        if isinstance(first, np.ndarray) and first.flags.writeable:
+            first[...] = -3.5               # the returned matrix is the caller's to overwrite
     R = np.asarray(lib("rotation", gaddlemaps.rotation_matrix, axis, th), dtype=float)
     if R.shape != (3, 3) or not np.all(np.isfinite(R)):
         raise PropertyViolation("rotation-finite", "R is not a finite 3x3 matrix: %r" % (R,))
@@ -160,7 +164,8 @@ def frame_case(draw):
             Rm = gen.random_rotation(rng)
             p = p @ Rm.T + rng.normal(size=3) * scale
     return {"cls": cls, "points": p.tolist(),
-            "container": draw(st.sampled_from(["list", "list", "tuple", "array", "array-F", "array-view", "row-views"]))}
+            "container": draw(st.sampled_from(["list", "list", "tuple", "array", "array-F", "array-view", "row-views"])),
+            "scribble": draw(st.booleans())}
 
 
 def check_frame(case):
@@ -185,6 +190,15 @@ def check_frame(case):
         backing = np.array(pts)
         arg = [backing[0], backing[1], backing[2]]
     backing_before = None if backing is None else backing.copy()
+    if case.get("scribble"):
+        # what a call returns belongs to the caller: a first result is overwritten in place, then the judged call is made
+        try:
+            (w1, w2, w3), worg = lib("frame-first", gaddlemaps.calcule_base, [p.copy() for p in pts])
+            for w in (w1, w2, w3, worg):
+                if isinstance(w, np.ndarray) and w.flags.writeable:
+                    w[...] = 7.25
+        except (TypeError, ValueError):
+            pass
     res = lib("frame", gaddlemaps.calcule_base, arg)
     for p, b in zip(pts, before):
         if not np.array_equal(p, b):
